@@ -210,3 +210,99 @@ Proof.
     replace (IZR inn / IZR id * (IZR pd * IZR id * 10000)) with (10000 * IZR inn * IZR pd) by (field; lra). rewrite <- !mult_IZR. apply IZR_le. assumption. }
   set (P := IZR pn / IZR pd) in *. repeat split; nra.
 Qed.
+
+(* ---- hand: the ring added at step s stands at angle +(s+1)*360/segments (right-hand) or -(s+1)*360/segments (left-hand)
+        and is lifted by s * z_step: going up, a right-hand thread turns counter-clockwise, a left-hand one clockwise ---- *)
+Definition ring_at (ang lift : R) (p : pt3 R) : pt3 R := Pt3 (dcos ang * x3 p) (dsin ang * x3 p) (lift + z3 p).
+Definition hand_angle (left : bool) (segments : Z) (s : Z) : R :=
+  if left then 360 / IZR segments * IZR (s + 1) * - (1) else 360 / IZR segments * IZR (s + 1).
+
+Lemma fold_left_seq_inv {A} (body : A -> Z -> A) (P : nat -> A -> Prop) (m : nat) (a0 : A) :
+  P 0%nat a0 -> (forall j a, (j < m)%nat -> P j a -> P (S j) (body a (Z.of_nat j))) ->
+  P m (fold_left body (map Z.of_nat (seq 0 m)) a0).
+Proof.
+  induction m as [|m IH]; intros H0 Hs; [exact H0|]. rewrite seq_S, map_app, fold_left_app. cbn [map fold_left Nat.add].
+  apply Hs; [lia|]. apply IH; [exact H0|]. intros j a Hj. apply Hs. lia.
+Qed.
+
+Section Hand.
+  Variables (d_min d_maj pitch length : R) (segments : Z) (li lo : R) (left : bool).
+  Hypothesis Hd : 0 <= d_min <= d_maj.
+  Hypothesis Hp : 0 <= pitch.
+  Hypothesis Hseg : (0 <= segments)%Z.
+  Hypothesis Hli : 0 <= li.
+  Hypothesis Hlo : 0 <= lo.
+  Notation inbox := (inbox d_min d_maj pitch).
+  Notation zs := (z_step pitch length segments).
+
+  (* the vertex list (newest ring first): the first section, then one ring of four section points per step *)
+  Inductive built : list (pt3 R) -> nat -> Prop :=
+  | built0 p0 p1 p2 p3 : inbox p0 -> inbox p1 -> inbox p2 -> inbox p3 -> built [p3; p2; p1; p0] 0
+  | builtS vs s p0 p1 p2 p3 : built vs s -> inbox p0 -> inbox p1 -> inbox p2 -> inbox p3 ->
+      built (ring_at (hand_angle left segments (Z.of_nat s)) (zs * IZR (Z.of_nat s)) p3 ::
+             ring_at (hand_angle left segments (Z.of_nat s)) (zs * IZR (Z.of_nat s)) p2 ::
+             ring_at (hand_angle left segments (Z.of_nat s)) (zs * IZR (Z.of_nat s)) p1 ::
+             ring_at (hand_angle left segments (Z.of_nat s)) (zs * IZR (Z.of_nat s)) p0 :: vs) (S s).
+
+  Definition st_ok' (n_out : Z) (st : @tstate R) : Prop :=
+    inbox (ts_in1 st) /\ inbox (ts_in3 st) /\ inbox (ts_out1 st) /\ inbox (ts_out3 st) /\
+    (3 <= ts_in_step st)%Z /\ (0 <= ts_out_step st <= n_out)%Z.
+
+  Theorem thread_rings : built (rev (fst (thread_mesh d_min d_maj pitch length segments li lo left))) (Z.to_nat (n_steps pitch length segments - 1)).
+  Proof.
+    unfold thread_mesh. cbv zeta. cbn [fst]. rewrite rev_involutive.
+    cbn [nzero nltb nsub nmul ndiv nadd nofZ ntrunc ntwo nthree NumR]. unfold nlit. cbn [ndiv nofZ NumR].
+    fold (thread_length pitch length). fold (n_steps pitch length segments). fold zs.
+    set (n_in := Rtrunc (IZR segments * li / 360 + 2)).
+    set (n_out := Rtrunc (IZR segments * lo / 360)).
+    set (tp0 := Pt3 (d_min / 2) 0 (3 / 4 * pitch)). set (tp1 := Pt3 (d_maj / 2) 0 (7 / 16 * pitch)).
+    set (tp2 := Pt3 (d_min / 2) 0 0). set (tp3 := Pt3 (d_maj / 2) 0 (5 / 16 * pitch)).
+    set (lerp1 := Pt3 (d_min / 2) 0 (7 / 16 * pitch)). set (lerp3 := Pt3 (d_min / 2) 0 (5 / 16 * pitch)).
+    assert (B0 : inbox tp0) by (unfold Thread_mesh_proofs.inbox, tp0; cbn [x3 y3 z3]; lra).
+    assert (B1 : inbox tp1) by (unfold Thread_mesh_proofs.inbox, tp1; cbn [x3 y3 z3]; lra).
+    assert (B2 : inbox tp2) by (unfold Thread_mesh_proofs.inbox, tp2; cbn [x3 y3 z3]; lra).
+    assert (B3 : inbox tp3) by (unfold Thread_mesh_proofs.inbox, tp3; cbn [x3 y3 z3]; lra).
+    assert (L1 : inbox lerp1) by (unfold Thread_mesh_proofs.inbox, lerp1; cbn [x3 y3 z3]; lra).
+    assert (L3 : inbox lerp3) by (unfold Thread_mesh_proofs.inbox, lerp3; cbn [x3 y3 z3]; lra).
+    assert (Hnin : (2 <= n_in)%Z).
+    { unfold n_in. assert (0 <= IZR segments) by (apply IZR_le; exact Hseg).
+      assert (0 <= IZR segments * li / 360) by (apply Rmult_le_pos; [apply Rmult_le_pos; assumption|lra]).
+      apply Rtrunc_ge; lra. }
+    assert (Hnout : (0 <= n_out)%Z).
+    { unfold n_out. apply Rtrunc_ge; [|cbn; apply Rmult_le_pos; [apply Rmult_le_pos; [apply IZR_le; exact Hseg|exact Hlo]|lra]].
+      apply Rmult_le_pos; [apply Rmult_le_pos; [apply IZR_le; exact Hseg|exact Hlo]|lra]. }
+    assert (I1 : inbox (tlerp lerp1 tp1 n_in 2)) by (apply tlerp_box; try assumption; lia).
+    assert (I3 : inbox (tlerp lerp3 tp3 n_in 2)) by (apply tlerp_box; try assumption; lia).
+    assert (O1 : (1 <= n_out)%Z -> inbox (tlerp lerp1 tp1 n_out 1)) by (intros; apply tlerp_box; try assumption; lia).
+    assert (O3 : (1 <= n_out)%Z -> inbox (tlerp lerp3 tp3 n_out 1)) by (intros; apply tlerp_box; try assumption; lia).
+    set (in_start1 := tlerp lerp1 tp1 n_in 2) in *. set (in_start3 := tlerp lerp3 tp3 n_in 2) in *.
+    set (out_end1 := tlerp lerp1 tp1 n_out 1) in *. set (out_end3 := tlerp lerp3 tp3 n_out 1) in *.
+    match goal with |- built (ts_verts (fold_left ?body (map Z.of_nat (seq 0 ?m)) ?st0)) _ =>
+      assert (HI : (fun j st => st_ok' n_out st /\ built (ts_verts st) j) m (fold_left body (map Z.of_nat (seq 0 m)) st0));
+        [apply (fold_left_seq_inv body (fun j st => st_ok' n_out st /\ built (ts_verts st) j) m st0)|exact (proj2 HI)] end.
+    - (* the first section *)
+      split.
+      + unfold st_ok'. cbn [ts_in1 ts_in3 ts_out1 ts_out3 ts_in_step ts_out_step].
+        split; [exact I1|]. split; [exact I3|]. split; [exact B1|]. split; [exact B3|]. split; lia.
+      + cbn [ts_verts rev app]. apply built0; assumption.
+    - (* one step: the four new vertices are section points carried to the ring of step j *)
+      intros j st Hj ((Hi1 & Hi3 & Ho1 & Ho3 & Hin & Hout) & Hb).
+      assert (Hang : (if left then 360 / IZR segments * IZR (Z.of_nat j + 1) * - (1) else 360 / IZR segments * IZR (Z.of_nat j + 1)) = hand_angle left segments (Z.of_nat j)) by reflexivity.
+      destruct ((ts_in_step st <? n_in)%Z && Rltb 0 li) eqn:Ein.
+      + apply andb_prop in Ein. destruct Ein as [Ein _]. apply Z.ltb_lt in Ein. split.
+        * unfold st_ok'. cbn [ts_in1 ts_in3 ts_out1 ts_out3 ts_in_step ts_out_step].
+          split; [apply tlerp_box; try assumption; lia|]. split; [apply tlerp_box; try assumption; lia|].
+          split; [exact Ho1|]. split; [exact Ho3|]. split; [lia|exact Hout].
+        * cbn [ts_verts rev app]. apply (builtS (ts_verts st) j tp0 (ts_in1 st) tp2 (ts_in3 st)); assumption.
+      + destruct ((0 <? ts_out_step st)%Z && (n_steps pitch length segments - n_out <=? Z.of_nat j)%Z && Rltb 0 lo) eqn:Eout.
+        * apply andb_prop in Eout. destruct Eout as [Eout _]. apply andb_prop in Eout. destruct Eout as [Eout _]. apply Z.ltb_lt in Eout. split.
+          -- unfold st_ok'. cbn [ts_in1 ts_in3 ts_out1 ts_out3 ts_in_step ts_out_step].
+             split; [exact Hi1|]. split; [exact Hi3|].
+             split; [apply tlerp_box; [exact B1|apply O1; lia|lia|lia]|]. split; [apply tlerp_box; [exact B3|apply O3; lia|lia|lia]|].
+             split; [exact Hin|lia].
+          -- cbn [ts_verts rev app]. apply (builtS (ts_verts st) j tp0 (ts_out1 st) tp2 (ts_out3 st)); assumption.
+        * split.
+          -- unfold st_ok'. cbn [ts_in1 ts_in3 ts_out1 ts_out3 ts_in_step ts_out_step]. split; [exact Hi1|]. split; [exact Hi3|]. split; [exact Ho1|]. split; [exact Ho3|]. split; [exact Hin|exact Hout].
+          -- cbn [ts_verts rev app]. apply (builtS (ts_verts st) j tp0 tp1 tp2 tp3); assumption.
+  Qed.
+End Hand.
